@@ -239,6 +239,9 @@ def run(chk, tier):
                 analyse_function(chk, db, sigs, owner, kind, rq, f, state)
                 nfun += 1
             rule_of_five(chk, db, rq)
+    nsrc = L.const_source_rule(chk, db, sigs, "SRC")
+    if nsrc < 2:
+        chk.analysis_broken("SRC: only %d copying members of slot-based owners found (floor 2)" % nsrc)
     # SLOTS-D / SLOTS-C: the destroyed range is the removed tail; construction happens at the first free slot
     slots.check(chk, D.load("plain"), ["static_vector", "inplace_vector"],
                 lambda r: ("trivial_storage" not in r) or ("non_trivial" in r), only=("D", "C"))
